@@ -80,8 +80,9 @@ class Opt(Val):
 
 
 class StrV(Val):
-    def __init__(self, s):
+    def __init__(self, s, arg=None):
         self.s = s
+        self.arg = arg  # the single scalar a "{}".format(x) / str(x) / f"{x}" key was rendered from, when known
 
     def __repr__(self):
         return f"StrV({self.s!r})"
